@@ -25,6 +25,9 @@ CHECKS = {
  "C11": dict(engine="irsim", category="exploration", design="DESIGN.md section 6 (C11)", technique="deterministic simulation of cooperative tasks: seeded interleaving of live iterators with node-sequence edits, list reference model",
    text="Up to four live iterators (iter/reversed/recursive/all_nodes over graph or function) are stepped by the driver, interleaved with append/extend/insert/remove/move/sort edits aimed at cursor, neighbours, visited and unvisited nodes; trace predicates (exact next, resume after removed current, untouched exactly once in order, members only, termination) and len/index/slice/contains/reversed against a list model after every step.",
    note="predicates only where the statement is unambiguous; after sort only no-exception/termination/membership are required; recursive iterators are checked on the top-level projection plus nested exactly-once."),
+ "C15": dict(engine="irsim", category="exploration", design="DESIGN.md section 6 (C15)", technique="deterministic simulation degenerated to one client: seeded add/remove/re-add/rename histories against a never-shrinking name model; NameFixPass on generated well-formed models",
+   text="History-only. Part A: Engine A histories biased to unnamed and generated-looking explicit names check every auto-assigned name against the per-graph registered-name model and explicit names for stability; rename_values is checked all-or-nothing by snapshot. Part B: NameFixPass on seeded well-formed models (nested scopes, functions, missing/duplicated/generated-looking names): non-empty, unique per graph, no shadowing of visible outer values, initializer keys, nothing but names changed, already-unique names kept.",
+   note="the registered-name model under-approximates; 'visible' outer values are those defined before the owner node; unsorted graphs and initializer order are recorded findings."),
 }
 NA = [
  ("C02", "pure function of the input proto: no schedule, clock, fault, crash point or history for a simulator to vary (DESIGN.md section 7)"),
